@@ -37,7 +37,8 @@ PROP = "C07"
 RULE = ("cases = (a) clustered particle tables (1-400 rows, 1-4 groups by tomo_id/object_id/class, metric score/geom1, "
         "both directions, non-zero shifts, d on the cluster scale; chains, overlapping groups, shift-decisive, near-tie, "
         "extreme d, odd labels, repeated scores) and (b) plateau-free score maps (blobs/noise, cubic and non-cubic, "
-        "arrays and EM/MRC files, scores/sigma threshold, integer and generic diameters, numbering 0/1, zxz/zzx lists); "
+        "arrays and EM/MRC files, scores/sigma threshold incl. exactly 0 on mixed-sign maps, integer and generic diameters, numbering 0/1, "
+        "zxz/zzx lists of 1-70000 rows); "
         "non-trivial = list with >= 1 conflicting pair inside a group, or map with >= 2 supra-threshold voxels of which "
         ">= 1 lies within the diameter of a better one; distinct by digest of sizes, parameters and leading values")
 ASSUMPTIONS = [
@@ -54,7 +55,8 @@ COLS = gens.COLS
 # order: list (cheap) and map (expensive) classes interleaved so that every shard (case index mod 2, 4, 16) gets both kinds
 CLASSES = ["cbd_clusters", "sx_blobs", "sx_faces", "cbd_lower_geom1", "sx_noise_dense", "cbd_overlapping_groups", "cbd_chain",
            "sx_files", "cbd_shift_decisive", "sx_integer_diameter", "sx_noncubic", "cbd_extreme_d", "sx_negative", "cbd_near_tie",
-           "cbd_small_n", "sx_sigma", "cbd_odd_labels", "sx_extreme_diameter", "sx_few_supra", "cbd_equal_scores_apart"]
+           "cbd_small_n", "sx_sigma", "cbd_odd_labels", "sx_extreme_diameter", "sx_few_supra", "cbd_equal_scores_apart",
+           "sx_zero_threshold", "sx_big_angle_list"]
 SX_COLS = ["x", "y", "z", "score", "phi", "theta", "psi"]
 ANGLE_TOL = 1e-9        # degrees: pandas' CSV float parser is not correctly rounded (1 ulp off on 17-digit decimals)
 
@@ -65,11 +67,11 @@ ENV = {"OMP_NUM_THREADS": "1", "OPENBLAS_NUM_THREADS": "1", "MKL_NUM_THREADS": "
 
 def plan(tier):
     if tier == "quick":
-        return dict(n_cases=400, shards=2, classes=CLASSES, timeout_s=600, env=ENV,
+        return dict(n_cases=440, shards=2, classes=CLASSES, timeout_s=600, env=ENV,
                     min_evals={"cbd_rows": 800, "cbd_separated": 800, "cbd_dominated": 800, "cbd_isolation": 1400,
                                "cbd_metamorphic": 300, "sx_threshold": 1200, "sx_score": 1200, "sx_angles": 1200,
                                "sx_separated": 1200, "sx_dominated": 1200, "sx_relational": 250})
-    return dict(n_cases=3200, shards=16, classes=CLASSES, timeout_s=3000, env=ENV,
+    return dict(n_cases=3520, shards=16, classes=CLASSES, timeout_s=3000, env=ENV,
                 min_evals={"cbd_rows": 8000, "cbd_separated": 8000, "cbd_dominated": 8000, "cbd_isolation": 12000,
                            "cbd_metamorphic": 2200, "sx_threshold": 8000, "sx_score": 8000, "sx_angles": 8000,
                            "sx_separated": 8000, "sx_dominated": 8000, "sx_relational": 1800})
@@ -566,6 +568,8 @@ def _dims(rng, cls, big):
         return tuple(int(x) for x in rng.permutation([int(rng.integers(2, 9)), int(rng.integers(6, hi + 1)), int(rng.integers(10, hi + 1))]))
     if cls == "sx_few_supra":
         return tuple(int(rng.integers(2, 12)) for _ in range(3))
+    if cls == "sx_big_angle_list":
+        return tuple(int(rng.integers(4, 13)) for _ in range(3))
     if rng.random() < 0.5:
         n = int(rng.integers(6, hi + 1))
         return (n, n, n)
@@ -615,12 +619,27 @@ def _plant_sigma_boundary(rng, S, sg, dia):
     return S, thr, int((S > thr).sum())
 
 
+def _big_list(ctx):
+    """70000 distinct angle rows, generated once per process, a function of the seed only (cases take a prefix)"""
+    L = getattr(ctx, "_c07_big_list", None)
+    if L is None:
+        r = ctx.rng(10 ** 7, 5)
+        L = np.round(np.column_stack([r.uniform(-180, 180, 70000), r.uniform(0, 180, 70000), r.uniform(-180, 180, 70000)]), 4)
+        ctx._c07_big_list = L
+    return L
+
+
 def _gen_sx(ctx, rng, cls, big):
     shape = _dims(rng, cls, big)
     nvox = int(np.prod(shape))
     kind = "noise" if cls in ("sx_noise_dense", "sx_few_supra") else ("faces" if cls == "sx_faces" else str(rng.choice(["blobs", "blobs", "noise"])))
     f = _field(rng, shape, kind)
-    if cls == "sx_negative":
+    if cls == "sx_zero_threshold":
+        # mixed-sign scores, the requested threshold is exactly 0 (int) or 0.0: kk voxels are positive
+        fs = np.sort(f.ravel())
+        kk = int(min(nvox - 1, 12000 if big else 5000, max(2, nvox * 10 ** rng.uniform(-2.0, -0.3))))
+        f = (f - (fs[-kk - 1] + fs[-kk]) / 2.0) * float(rng.choice([1.0, 1e-2, 40.0]))
+    elif cls == "sx_negative":
         f = f * float(rng.choice([1.0, 30.0]))
         f = f - float(f.max()) - float(rng.uniform(0.1, 5))
     elif rng.random() < 0.3:
@@ -656,11 +675,16 @@ def _gen_sx(ctx, rng, cls, big):
         thr = float(srt[-k - 1])              # threshold EQUAL to a voxel's score: that voxel does not exceed it
     else:
         thr = float((srt[-k - 1] + srt[-k]) / 2.0)
-    as_files = cls == "sx_files" or rng.random() < 0.15
+    if cls == "sx_zero_threshold":
+        thr = 0 if rng.random() < 0.5 else 0.0
+        k = int((srt > 0).sum())
+    as_files = cls == "sx_files" or rng.random() < (0.5 if cls == "sx_big_angle_list" else 0.15)
     io = {"scores": "array", "angles": "array", "list": "array"}
     if as_files:
         io = {"scores": str(rng.choice(["em", "mrc"])), "angles": str(rng.choice(["em", "mrc", "array"])),
               "list": str(rng.choice(["csv", "csv", "array"]))}
+    if as_files and cls == "sx_big_angle_list":
+        io["list"] = "csv"
     use64 = bool(rng.random() < (0.7 if cls == "sx_sigma" else 0.35)) and io["scores"] == "array"
     S = S32.astype(np.float64) if use64 else S32
     if cls == "sx_sigma" or (cls in ("sx_blobs", "sx_noncubic", "sx_faces") and rng.random() < 0.25):
@@ -690,7 +714,16 @@ def _gen_sx(ctx, rng, cls, big):
         L = np.column_stack([rng.integers(0, 36, nl) * 10.0, rng.integers(0, 19, nl) * 10.0 + 0.5, rng.integers(0, 36, nl) * 10.0 + 0.25])
     else:
         L = np.column_stack([rng.integers(0, 360, nl), rng.integers(0, 181, nl), rng.integers(360, 720, nl)]).astype(float)
+    if cls == "sx_big_angle_list":
+        # 40000-70000 rows: angle-map entries beyond 32767 / 65535 and the last row are referenced by the best voxels
+        nl = int(rng.integers(40000, 70001))
+        nl += 1 if nl in (32768, 65536) else 0
+        L, lmode = _big_list(ctx)[:nl], "big_cached_prefix"
     Aidx = rng.integers(0, nl, shape)
+    if cls == "sx_big_angle_list":
+        top = np.argsort(-S.ravel())[:6]
+        forced = [nl - 1, 32768, 32767, nl - 2, int(rng.integers(32769, nl)), 65535 if nl > 65536 else 39999]
+        Aidx.ravel()[top[:min(len(top), 6)]] = forced[:min(len(top), 6)]
     adt = str(rng.choice(["int64", "int32", "float32", "float64"]))
     Amap = (Aidx + numbering).astype(adt)
     order = "zzx" if rng.random() < (0.5 if as_files else 0.2) else "zxz"
